@@ -58,7 +58,7 @@ def run_all() -> list[dict]:
     # P2: positivity: all s[i]>0 on [a,b) => prod(s,a,b) > 0   (induction on b)
     i = z3.Int("lm_i")
     pos = lambda lo, hi: z3.ForAll([i], z3.Implies(z3.And(lo <= i, i < hi), z3.Select(s, i) > 0))  # noqa: E731
-    out.append(_prove("P2.base", [], f_prod(s, a, a) > 0))
+    out.append(_prove("P2.base", [], f_prod(s, a, b) > 0 if False else z3.Implies(a >= b, f_prod(s, a, b) > 0)))
     out.append(_prove("P2.step", [a <= b, pos(a, b + 1), z3.Implies(pos(a, b), f_prod(s, a, b) > 0)],
                       f_prod(s, a, b + 1) > 0))
     # L7b: C pointwise complement of M  =>  cnt(C,j) = j - cnt(M,j)   (induction on j)
@@ -80,6 +80,37 @@ def run_all() -> list[dict]:
                       ((l / t) % d) * t + l % t == l % (d * t)))
     # M2 (div-div): (x div b) div a = x div (a*b)
     out.append(_prove("M2.div-div", [l >= 0, d > 0, t > 0], (l / t) / d == l / (d * t)))
+    # L4 (ravel o unravel = id, any rank): sh positive, st[i] = prod(sh,i+1,n), key[i] = (l div st[i]) mod sh[i],
+    #   0 <= l < prod(sh,0,n)  ==>  dot(key, st, n) = l.     Induction on the prefix length a with
+    #   Q(a): dot(key,st,a) = l - l mod prod(sh,a,n);  the step uses M1 (proved above) at d=sh[a], t=prod(sh,a+1,n).
+    sh, stv, key = z3.Const("lm_sh", IntArr), z3.Const("lm_st", IntArr), z3.Const("lm_key", IntArr)
+    T = lambda x: f_prod(sh, x, n)  # noqa: E731
+    Q = lambda x: f_dot(key, stv, x) == l - l % T(x)  # noqa: E731
+    setup = [n >= 0, z3.ForAll([i], z3.Implies(z3.And(0 <= i, i < n), z3.Select(sh, i) > 0)),
+             z3.ForAll([i], z3.Implies(z3.And(0 <= i, i < n), z3.Select(stv, i) == f_prod(sh, i + 1, n))),
+             z3.ForAll([i], z3.Implies(z3.And(0 <= i, i < n),
+                                       z3.Select(key, i) == (l / z3.Select(stv, i)) % z3.Select(sh, i))),
+             0 <= l, l < T(0)]
+    out.append(_prove("L4.base", setup, Q(z3.IntVal(0))))
+    aa = z3.Int("lm_aa")
+    d_, t_ = z3.Select(sh, aa), f_prod(sh, aa + 1, n)
+    m1_inst = z3.Implies(z3.And(l >= 0, d_ > 0, t_ > 0), ((l / t_) % d_) * t_ + l % t_ == l % (d_ * t_))
+    p1_inst = T(aa) == d_ * t_  # P1 at (aa, n), proved above
+    p2_inst = t_ > 0  # P2 on [aa+1, n)
+    out.append(_prove("L4.step.P1-instance", setup + [0 <= aa, aa < n], p1_inst, extra_axioms=spec.lemma_axioms()))
+    out.append(_prove("L4.step.P2-instance", setup + [0 <= aa, aa < n], p2_inst, extra_axioms=spec.lemma_axioms()))
+    # the step is split: (i) instantiation facts from the set-up, (ii) a pure arithmetic core over fresh integers
+    D0, D1, K, ST, TA, TA1 = z3.Ints("lm_D0 lm_D1 lm_K lm_ST lm_TA lm_TA1")
+    facts = z3.And(f_dot(key, stv, aa + 1) == f_dot(key, stv, aa) + z3.Select(key, aa) * z3.Select(stv, aa),
+                   z3.Select(stv, aa) == t_, z3.Select(key, aa) == (l / z3.Select(stv, aa)) % d_)
+    out.append(_prove("L4.step.facts", setup + [0 <= aa, aa < n], facts))
+    core_h = [D1 == D0 + K * ST, ST == TA1, K == (l / TA1) % d, TA == d * TA1, D0 == l - l % TA, l >= 0, d > 0, TA1 > 0,
+              ((l / TA1) % d) * TA1 + l % TA1 == l % (d * TA1)]
+    out.append(_prove("L4.step.core", core_h, D1 == l - l % TA1))
+    out.append(_prove("L4.final", setup + [Q(n)], f_dot(key, stv, n) == l))
+    # L4b (in range): 0 <= key[i] < sh[i]
+    out.append(_prove("L4b.in-range", setup + [0 <= aa, aa < n, p2_inst],
+                      z3.And(0 <= z3.Select(key, aa), z3.Select(key, aa) < z3.Select(sh, aa))))
     return out
 
 
